@@ -984,6 +984,21 @@ Definition fo_published (o : fo_out) : bool :=
   | FOConnFailed => true
   | _ => false
   end.
+(* ... and what it clears (clearResolutionZoneFailure): the zone's failure state is dropped when
+   the lookup ends in an answer or in a name error that resolve accepts — the zone is alive *)
+Definition fo_cleared (o : fo_out) : bool :=
+  match o with
+  | FOAnswer _ => true
+  | FOResponse rc => (rc =? rcode_nxdomain)%N
+  | _ => false
+  end.
+(* lame: a failure rcode (not NXDOMAIN), or no reply / a connection error *)
+Definition srv_lame (s : srv) : bool :=
+  match s with
+  | SRcode rc => negb (rc =? 0)%N && negb (rc =? rcode_nxdomain)%N
+  | SSilent => true
+  | _ => false
+  end.
 (* a usable response: an answer, or NXDOMAIN (it answers the question) *)
 Definition srv_usable (s : srv) : bool :=
   match s with
@@ -991,3 +1006,35 @@ Definition srv_usable (s : srv) : bool :=
   | SRcode rc => (rc =? rcode_nxdomain)%N || (rc =? 0)%N
   | _ => false
   end.
+
+(* The fan-out under an OBSERVED schedule (lab driver, gated authorities).  The driver notes, at
+   barriers where the lookup is parked and every released reply has been consumed, how many
+   servers have been started, then releases the reply of one started server.  Fallback-timer
+   ticks happen at times it does not control; their number is read off the started count (a tick
+   at the last server starts nothing and leaves the state as it is), and where they fell relative
+   to the consumed non-final result does not matter (Proofs_Fanout.timer_commutes_with_result).
+   [None]: the observation is impossible in the model — the started count went below the
+   model's or beyond what ticks can reach, a reply was released for a server the model has not
+   started, or the lookup went on after the model says it ended. *)
+Definition fo_started (st : fo_state) : nat := length (filter (fun s => match s with StUnstarted => false | _ => true end) (fo_stat st)).
+Definition fo_ticks (servers : list srv) (level : nat) (st : fo_state) (k : nat) : fo_state :=
+  fold_left (fo_step servers level) (repeat FoTimer k) st.
+Fixpoint fo_observed (servers : list srv) (level : nat) (st : fo_state) (evs : list (nat * nat)) : option fo_state :=
+  match evs with
+  | [] => Some st
+  | (a, i) :: r =>
+      match fo_done st with
+      | Some _ => None
+      | None =>
+          let st1 := fo_ticks servers level st (a - fo_started st) in
+          if (fo_started st1 =? a)%nat then
+            match nth_error (fo_stat st1) i with
+            | Some StPending => fo_observed servers level (fo_step servers level st1 (FoResult i)) r
+            | _ => None
+            end
+          else None
+      end
+  end.
+(* every server's reply was released to the lookup *)
+Definition fo_all_heard (n : nat) (evs : list (nat * nat)) : bool :=
+  forallb (fun i => existsb (fun e => (snd e =? i)%nat) evs) (seq 0 n).
